@@ -767,6 +767,13 @@ func (c *specCtx) call(x *SExpr) *SVal {
 		// empty(K): the empty set over K
 		s, _ := c.sortOfTypeStr("set[" + x.Args[0].String() + "]")
 		return &SVal{T: ConstArr(s, False)}
+	case "bytesOf":
+		// bytesOf(s): the []byte(s) conversion of a string (the same uninterpreted function the executor uses)
+		v := c.eval(x.Args[0])
+		bs := e.sortOf(types.NewSlice(types.Typ[types.Byte]))
+		name := "conv$" + smtIdent(v.T.S.Name) + "$" + smtIdent(bs.Name)
+		DeclFunc(name, bs, v.T.S)
+		return &SVal{T: App(name, v.T), Ty: types.NewSlice(types.Typ[types.Byte])}
 	case "bitand":
 		// bitand(a, b): Go's a & b on integers (the same uninterpreted function the executor uses for `&`)
 		a, b := c.eval(x.Args[0]), c.eval(x.Args[1])
